@@ -582,7 +582,17 @@ func runOverlayTest(pkg, srcFile, runPat string, timeoutSec int) (bool, string) 
 	}
 	defer os.RemoveAll(tmp)
 	target := filepath.Join(RepoDir, pkg, "zz_verif_replay_test.go")
-	ov := map[string]any{"Replace": map[string]string{target: srcFile}}
+	repl := map[string]string{target: srcFile}
+	if g := os.Getenv("GVC_OVERLAY"); g != "" {
+		// a check that runs on patched files (self-test, sweep) tests those very files
+		var m map[string]string
+		if err := loadJSON(g, &m); err == nil {
+			for k, v := range m {
+				repl[k] = v
+			}
+		}
+	}
+	ov := map[string]any{"Replace": repl}
 	b, _ := json.Marshal(ov)
 	ovPath := filepath.Join(tmp, "ov.json")
 	os.WriteFile(ovPath, b, 0o644)
